@@ -184,9 +184,12 @@ class CompRunner:
             self.jinfo[key] = {"rows": rows, "cols": cols, "shape": tuple(m["shape"]),
                                "val": np.array(val, dtype=float), "dependent": m.get("dependent", True)}
         self.approx_keys = set()
+        self.cs_keys = set()  # pairs whose partials OpenMDAO obtains by complex step through compute()
         try:
             for (aof, awrt) in comp._get_approx_subjac_keys():
                 self.approx_keys.add((aof[len(pre):], awrt[len(pre):]))
+                if comp._subjacs_info.get((aof, awrt), {}).get("method") == "cs":
+                    self.cs_keys.add((aof[len(pre):], awrt[len(pre):]))
         except Exception:
             pass
         self.mutable = [a for a in mutable_attrs(type(comp))]
@@ -326,8 +329,15 @@ class CompRunner:
             finally:
                 self._restore_attrs(saved)
 
-        with symbolic_numpy(extra):
-            return execute.explore(once, assumptions, max_paths=max_paths)
+        from . import npproxy as _npp
+
+        prev = _npp.COMPLEX_STEP_COMPONENT[0]
+        _npp.COMPLEX_STEP_COMPONENT[0] = bool(getattr(self, "cs_keys", None))
+        try:
+            with symbolic_numpy(extra):
+                return execute.explore(once, assumptions, max_paths=max_paths)
+        finally:
+            _npp.COMPLEX_STEP_COMPONENT[0] = prev
 
     def _swap_sparse_only(self):
         """fresh-problem state: sparse constants lifted, mutable float work arrays become object arrays holding
